@@ -781,6 +781,8 @@ CONFIGS_QUICK = [
     {"data_type": "nanopore", "genedb": True, "strategy": "all", "threads": 2},
     {"data_type": "nanopore", "genedb": False, "strategy": "sensitive_ont", "threads": 2},
     {"data_type": "assembly", "genedb": True, "strategy": "assembly", "threads": 1},
+    # reads without tails count: a known isoform supported only by truncated reads in two separate read regions is reported
+    {"data_type": "nanopore", "genedb": True, "strategy": None, "threads": 1, "extra": ["--polya_requirement", "never"]},
 ]
 CONFIGS_MORE = [
     {"data_type": "pacbio_ccs", "genedb": True, "strategy": "reliable", "threads": 2},
